@@ -42,6 +42,7 @@ type Leak struct {
 }
 
 type tsState struct {
+	handed     bool // ownership was passed on (goroutine / callee / channel)
 	held       bool
 	deferAll   bool
 	deferFlag  bool // a flag-guarded deferred release is registered
@@ -49,10 +50,18 @@ type tsState struct {
 	flagPolTru bool // deferred release fires when flag == flagPolTru
 }
 
+// EarlyRelease: the function that handed a resource to a goroutine releases it itself afterwards.
+type EarlyRelease struct {
+	Fn *ssa.Function
+	At ssa.Instruction
+}
+
 type TypeState struct {
 	P     *Prog
 	Spec  ResourceSpec
 	Leaks []Leak
+	Early []EarlyRelease
+	early map[*ssa.Function]bool
 	// memo of function/parameter summaries: true = takes ownership (has some discharge event)
 	owns    map[string]bool
 	checked map[string]bool
@@ -62,7 +71,7 @@ type TypeState struct {
 }
 
 func NewTypeState(p *Prog, spec ResourceSpec) *TypeState {
-	return &TypeState{P: p, Spec: spec, owns: map[string]bool{}, checked: map[string]bool{}, Visited: map[*ssa.Function]bool{}, Handoffs: map[string]ssa.Instruction{}}
+	return &TypeState{P: p, Spec: spec, early: map[*ssa.Function]bool{}, owns: map[string]bool{}, checked: map[string]bool{}, Visited: map[*ssa.Function]bool{}, Handoffs: map[string]ssa.Instruction{}}
 }
 
 // aliases computes the set of SSA values in fn denoting resource v: v itself, boxings, the
@@ -145,6 +154,7 @@ func (ts *TypeState) CheckFrom(fn *ssa.Function, v ssa.Value, start ssa.Instruct
 		return carriers[x]
 	}
 	anyEvent := false
+	handedAsync := map[*ssa.Function]bool{}
 	// per-instruction events
 	evOf := func(in ssa.Instruction) []event {
 		var evs []event
@@ -184,6 +194,9 @@ func (ts *TypeState) CheckFrom(fn *ssa.Function, v ssa.Value, start ssa.Instruct
 						}
 					} else if ts.summaryFreeVar(cf, bi, what) {
 						evs = append(evs, event{kind: "handoff"})
+						if _, isGo := in.(*ssa.Go); isGo {
+							handedAsync[fn] = true
+						}
 					}
 				}
 			}
@@ -211,8 +224,16 @@ func (ts *TypeState) CheckFrom(fn *ssa.Function, v ssa.Value, start ssa.Instruct
 	apply := func(st tsState, in ssa.Instruction) tsState {
 		for _, e := range evOf(in) {
 			switch e.kind {
-			case "release", "handoff":
+			case "release":
+				if st.handed && !ts.early[fn] {
+					ts.early[fn] = true
+					ts.Early = append(ts.Early, EarlyRelease{Fn: fn, At: in})
+				}
 				st.held = false
+				anyEvent = true
+			case "handoff":
+				st.held = false
+				st.handed = true
 				anyEvent = true
 			case "deferAll":
 				st.deferAll = true
@@ -324,6 +345,12 @@ func (ts *TypeState) CheckFrom(fn *ssa.Function, v ssa.Value, start ssa.Instruct
 			st, isExit = processBlock(n, nil)
 		}
 		if isExit {
+			// a deferred release that fires although ownership was handed to a goroutine/callee that
+			// is still using the slot gives the slot back while the transfer is running
+			if st.handed && handedAsync[n.b.Parent()] && (st.deferAll || (st.deferFlag && (st.flag < 0 || (st.flag == 1) == st.flagPolTru))) && !ts.early[fn] {
+				ts.early[fn] = true
+				ts.Early = append(ts.Early, EarlyRelease{Fn: fn, At: n.b.Instrs[len(n.b.Instrs)-1]})
+			}
 			released := !st.held || st.deferAll || (st.deferFlag && st.flag >= 0 && (st.flag == 1) == st.flagPolTru)
 			if !released && !leakAt[n.b] {
 				leakAt[n.b] = true
